@@ -544,6 +544,64 @@ func ruleMODE2(c *Ctx) {
 						}
 						break
 					}
+					// what the enclosing conditions say about the value's Type: `v.Type == K1 || v.Type == K2`
+					// leaves {K1, K2}; `v.Type != K` (or a failed equality) removes K
+					typeConstOf := func(x ast.Expr) (string, bool, bool) { // name, isEq, ok
+						be, ok := ast.Unparen(x).(*ast.BinaryExpr)
+						if !ok || (be.Op != token.EQL && be.Op != token.NEQ) {
+							return "", false, false
+						}
+						for _, pr := range [][2]ast.Expr{{be.X, be.Y}, {be.Y, be.X}} {
+							if isField(info, pr[0], "lexergen/mode", "Action", "Type") {
+								if sel, isSel := ast.Unparen(pr[0]).(*ast.SelectorExpr); isSel && usesObj(info, sel.X) == o {
+									if k, isK := usesObj(info, pr[1]).(*types.Const); isK {
+										return k.Name(), be.Op == token.EQL, true
+									}
+								}
+							}
+						}
+						return "", false, false
+					}
+					for _, fct := range pathConds(info, par, at) {
+						ds := disjuncts(fct.e)
+						names := map[string]bool{}
+						allEq := len(ds) > 0
+						for _, dj := range ds {
+							nm, isEq, ok := typeConstOf(dj)
+							if !ok || !isEq {
+								allEq = false
+								break
+							}
+							names[nm] = true
+						}
+						if allEq {
+							if !fct.neg {
+								for k := range set {
+									if !names[k] {
+										delete(set, k)
+									}
+								}
+							} else {
+								for k := range names {
+									delete(set, k)
+								}
+							}
+							continue
+						}
+						if len(ds) == 1 {
+							if nm, isEq, ok := typeConstOf(ds[0]); ok && !isEq {
+								if !fct.neg {
+									delete(set, nm)
+								} else {
+									for k := range set {
+										if k != nm {
+											delete(set, k)
+										}
+									}
+								}
+							}
+						}
+					}
 					return set, "value of " + o.Name()
 				}
 				return nil, "expression " + exprString(e)
